@@ -400,7 +400,7 @@ const REPEAT_EXTRA: &[&str] = &[
     "int ;", "x = ;", ") ;", "gate ;", "def f( ;", "h q", "1 2", "int[ x;", "} ", "{ ", "if ( ", "else ", "a b;", "@a\n", "pragma p\n",
     "\"s\" ", "'s' ", "0x ", "1e ", "$ ", "§ ", "/* c */ ", "// c\n", "x;", "h q;", "int x = 1;", "[", "(", "let a = ;", "case 1 ",
 ];
-const NESTING_UNITS: &[&str] = &["array", "mutable", "(", "{", "[", "-", "+", "if (", "=", "@", "inv", "pow", "#", ">", "*", ".", ":", "else", "if", "for", "while", "return", "measure", "let", "let a = ;", "case", "switch"];
+const NESTING_UNITS: &[&str] = &["gphase", "array", "mutable", "(", "{", "[", "-", "+", "if (", "=", "@", "inv", "pow", "#", ">", "*", ".", ":", "else", "if", "for", "while", "return", "measure", "let", "let a = ;", "case", "switch"];
 const REPEAT_COUNTS_QUICK: &[u64] = &[8, 100, 255, 256, 257, 300, 1024, 4096];
 const REPEAT_COUNTS_THOROUGH: &[u64] = &[8, 100, 127, 128, 255, 256, 257, 300, 511, 512, 1023, 1024, 4095, 4096, 16384, 65535, 65536, 65537];
 
